@@ -994,3 +994,42 @@ Section TheProperty.
     - intros Ha. unfold flips. apply dump_none_platform. exact Ha.
   Qed.
 End TheProperty.
+
+(* the same for a dump with Linux maps lines (start, end, rwx) *)
+Section ThePropertyMaps.
+  Variable analysis : pcontext -> option op_analysis.
+
+  Lemma the_property_maps arch platform_id e pc l :
+    u64_recs l ->
+    let c := dump_cpu arch in
+    let os := os_class (dump_os platform_id) in
+    let r := dump_reason arch platform_id e in
+    let address := dump_address arch platform_id e in
+    let flips := dump_pipeline analysis arch platform_id e pc (regions_of_maps l) in
+    (forall f, In f flips ->
+       exists a j, examined_by analysis c os r address pc f a /\
+                   inaccessible (regions_of_maps l) (memop_of_reason r) a /\
+                   br_lo (pipeline_br analysis c os r address pc) <= j < br_hi (pipeline_br analysis c os r address pc) /\
+                   f_addr f = Z.lxor a (2 ^ j) /\
+                   (f_addr f = 0 \/
+                    exists lo hi p, In (lo, hi, p) l /\ lo <= f_addr f <= hi /\ maps_allows (memop_of_reason r) p = true) /\
+                   le_b32 (f32 0) (confidence (f_det f)) = true /\ le_b32 (confidence (f_det f)) (f32 F32_ONE_bits) = true) /\
+    (forall x oa, pc = Some x -> analysis x = Some oa -> has_null_flag oa -> flips = []) /\
+    (~ (arch = 9 \/ arch = 32770 \/ arch = 32772) -> flips = []).
+  Proof.
+    intros Hl c os r address flips. split; [|split].
+    - intros f Hin. unfold flips, dump_pipeline in Hin. fold c os r address in Hin.
+      destruct (pipeline_examined_inaccessible analysis _ _ _ _ _ _ _ Hin) as [a0 [Hex0 Hna0]].
+      destruct (pipeline_flip_maps analysis c os r address pc l f Hl Hin) as [a [j [Hex [Hj [Hf Hm]]]]].
+      assert (Heq : a0 = a).
+      { destruct Hex0 as [[Hr0 Ha0]|[id0 [x0 [oa0 [Hr0 [Hp0 [Han0 [_ Hg0]]]]]]]];
+        destruct Hex as [[Hr1 Ha1]|[id1 [x1 [oa1 [Hr1 [Hp1 [Han1 [_ Hg1]]]]]]]].
+        - congruence.
+        - rewrite Hr0 in Hr1. discriminate.
+        - rewrite Hr0 in Hr1. discriminate.
+        - rewrite Hr0 in Hr1. inversion Hr1; subst id1. rewrite Hp0 in Hp1. inversion Hp1; subst x1. congruence. }
+      subst a0. exists a, j. repeat split; try assumption; try apply Hj; apply (confidence_01_split (f_det f)).
+    - intros x oa Hpc Han Hn. unfold flips, dump_pipeline. subst pc. eapply pipeline_none_null; eassumption.
+    - intros Ha. unfold flips. apply dump_none_platform. exact Ha.
+  Qed.
+End ThePropertyMaps.
